@@ -9,7 +9,7 @@ EXTENDS Player
 
 VARIABLES xsys, xphase, xcur
 xvars == <<xsys, xphase, xcur>>
-XInit == xsys \in ExplicitSystems /\ xphase = 0 /\ xcur = 0
+XInit == IsExplicitSystem(xsys) /\ xphase = 0 /\ xcur = 0
 XNext == xphase = 0 /\ xphase' = 1 /\ UNCHANGED <<xsys, xcur>>
 XSpec == XInit /\ [][XNext]_xvars
 
